@@ -20,7 +20,21 @@ def main():
     sys.exit(mod.replay(viol))
   from mc.evidence import Report
   report = Report(args.prop, args.tier, mod.LEVEL)
-  mod.run(args.tier, report)
+  try:
+    mod.run(args.tier, report)
+  except Exception as e:            # pylint: disable=broad-except
+    # The exploration itself died: on the unchanged tree no check does, so the code under test
+    # raised where the driver relies on it not to (e.g. a conversion that is no longer total while
+    # the base document is built). Reported as a violation with the innermost repository frame.
+    import traceback
+    tb = traceback.extract_tb(e.__traceback__)
+    site = next(("%s:%s" % (os.path.basename(f.filename), f.name) for f in reversed(tb)
+                 if '/sandbox/grist/' in f.filename), 'driver')
+    report.add_violation('%s/exploration-aborted/%s/%s' % (args.prop, type(e).__name__, site),
+                         "exploration aborted by %s: %s\n%s" % (
+                             type(e).__name__, e, ''.join(traceback.format_exception(type(e), e, e.__traceback__))[-1500:]),
+                         kind='exploration-aborted')
+    report.caps.append('aborted by exception: coverage figures are partial')
   sys.exit(report.finish())
 
 
